@@ -285,6 +285,7 @@ func TestC04_CallPlans(t *testing.T) {
 	ev.Check(t, c04, func(rt *rapid.T) {
 		defer drawSched(rt).install()() // seeded yields at the library's schedule points
 		o := rpc.Default()
+		o.ClientDialTimeout = 30 * time.Second // the 2 s default is exceeded on an overloaded machine; dial behaviour is C19's subject
 		o.ClientMaxConns = rapid.IntRange(1, 3).Draw(rt, "maxconns")
 		o.ClientConnChannels = rapid.IntRange(1, 8).Draw(rt, "target")
 		o.Compression = rapid.Bool().Draw(rt, "compression")
@@ -416,6 +417,7 @@ func TestC04_MalformedReplies(t *testing.T) {
 		defer rs.close()
 		o := rpc.Default()
 		o.Compression = false
+		o.ClientDialTimeout = 30 * time.Second
 		cl := rpc.NewClient(rs.ln.Addr().String(), rpc.ClientMode_OnDemand, netfx.NewLogger(), o)
 		defer cl.Close()
 		variant := rapid.IntRange(0, 8).Draw(rt, "variant")
